@@ -7,6 +7,8 @@
 #include "geom.h"
 #include "gen.h"
 #include "clipper2/clipper.h"
+#include <signal.h>
+#include <sys/wait.h>
 
 using namespace vf;
 using namespace Clipper2Lib;
@@ -152,9 +154,9 @@ static bool edges_overlap(const Path64& a, const Path64& b) {
   }
   return false;
 }
-static std::vector<std::string> classify_node(const Flat& t, int k, bool use_mid, const std::string& cls) {
+static std::vector<std::string> classify_one(const Flat& t, int k, bool use_mid, const std::string& cls, int& T) {
   const Node& N = t.nodes[(size_t)k];
-  int T = -1;
+  T = -1;
   for (size_t j = 0; j < t.nodes.size(); ++j) {
     if ((int)j == k) continue;
     const Node& B = t.nodes[j];
@@ -184,6 +186,21 @@ static std::vector<std::string> classify_node(const Flat& t, int k, bool use_mid
     tags.push_back(touch ? "touches_true_container" : "clear_of_true_container");
     if (edges_overlap(N.poly, B.poly)) tags.push_back("edge_overlap_true_container");
   }
+  return tags;
+}
+// A node whose true container is itself misplaced (e.g. the hole of an island that was hung on the root) is only a
+// consequence: follow the chain of true containers up to the node whose own container sits where it belongs and
+// classify that one (tag via_misplaced_container records that this happened).
+static std::vector<std::string> classify_node(const Flat& t, int k, bool use_mid, const std::string& cls) {
+  int T = -1; bool moved = false;
+  std::vector<std::string> tags = classify_one(t, k, use_mid, cls, T);
+  for (int it = 0; it < 16 && tags[0] != "attached_too_high" && tags[0] != "parent_is_true_container" && T >= 0; ++it) {
+    int T2 = -1;
+    std::vector<std::string> up = classify_one(t, T, use_mid, cls, T2);
+    if (up[0] == "parent_is_true_container") break;
+    tags = up; T = T2; moved = true;
+  }
+  if (moved) tags.push_back("via_misplaced_container");
   return tags;
 }
 static std::vector<std::string> join_tags(std::vector<std::string> a, const std::vector<std::string>& b) { a.insert(a.end(), b.begin(), b.end()); return a; }
@@ -345,6 +362,36 @@ static bool gp_premise(const Paths64& S, const Paths64& C, const Paths64& O) {
   return general_position(all, max_abs_coord(all));
 }
 
+// ------------------------------------------------------------------------------------------------ crash pre-screen
+// Degenerate rectilinear scenes can send the PolyTree build into unbounded recursion (CheckSplitOwner). A worker that
+// dies loses its counters and all its remaining cases, so for the rectilinear class the tree executions are first
+// run in a forked child: if the child dies, the case is reported (with its witness) and the parent carries on.
+static char* g_stack_ref = nullptr;
+static void c04_segv_handler(int, siginfo_t* si, void*) {
+  char* a = (char*)si->si_addr;
+  // fault far below the frame that started the library call = the stack guard page: stack overflow
+  if (g_stack_ref && a < g_stack_ref && g_stack_ref - a > (ptrdiff_t)(2 << 20) && g_stack_ref - a < (ptrdiff_t)(256 << 20)) _exit(77);
+  _exit(78);
+}
+template <class F> static std::string prescreen(F f) {       // "" = survived, else a classifier tag
+  pid_t pid = fork();
+  if (pid < 0) return "";
+  if (pid == 0) {
+    static char alt[1 << 16];
+    stack_t ss; ss.ss_sp = alt; ss.ss_flags = 0; ss.ss_size = sizeof alt; sigaltstack(&ss, nullptr);
+    struct sigaction sa; memset(&sa, 0, sizeof sa); sa.sa_sigaction = c04_segv_handler; sa.sa_flags = SA_SIGINFO | SA_ONSTACK;
+    sigaction(SIGSEGV, &sa, nullptr); sigaction(SIGBUS, &sa, nullptr);
+    char ref = 0; g_stack_ref = &ref;
+    f();
+    _exit(0);
+  }
+  int st = 0;
+  if (waitpid(pid, &st, 0) != pid) return "";
+  if (WIFEXITED(st)) { int e = WEXITSTATUS(st); return e == 0 ? "" : e == 77 ? "stack_overflow" : e == 78 ? "segv" : "exit_" + std::to_string(e); }
+  if (WIFSIGNALED(st)) return "signal_" + std::to_string(WTERMSIG(st));
+  return "";
+}
+
 static void judge(Ctx& ctx, const Case& c, bool from_replay) {
   const Paths64& S = c.P("S"); const Paths64& C = c.P("C"); const Paths64& O = c.P("O");
   const int ct = (int)c.geti("ct"), fr = (int)c.geti("fr");
@@ -360,6 +407,31 @@ static void judge(Ctx& ctx, const Case& c, bool from_replay) {
     if (!ok || M > ((int64_t)1 << 61)) { ctx.count("premise_rejected"); return; }
   }
   ctx.begin(c);
+
+  const double dscale = prec >= 0 ? std::pow(2.0, std::ilogb(std::pow(10.0, prec)) + 1) : 1.0;   // as documented in the ClipperD ctor
+  const bool do_d = prec >= 0 && (ld)M * (ld)dscale <= 4.5e15L;
+  auto toD = [](const Paths64& pp) { PathsD r; for (auto& p : pp) { PathD q; for (auto& pt : p) q.emplace_back((double)pt.x, (double)pt.y); r.push_back(q); } return r; };
+  auto scaled = [&](const Paths64& pp) { Paths64 r = pp; const int64_t k = (int64_t)dscale; for (auto& p : r) for (auto& pt : p) { pt.x *= k; pt.y *= k; } return r; };
+  if (rect) {
+    std::string died = prescreen([&]() {
+      { Clipper64 ct0; ct0.PreserveCollinear(pc); ct0.ReverseSolution(rev); ct0.AddSubject(S); ct0.AddClip(C); if (!O.empty()) ct0.AddOpenSubject(O);
+        PolyTree64 t0; Paths64 o0; ct0.Execute((ClipType)ct, (FillRule)fr, t0, o0); }
+      if (do_d) {
+        { ClipperD cd(prec); cd.PreserveCollinear(pc); cd.ReverseSolution(rev); cd.AddSubject(toD(S)); cd.AddClip(toD(C)); if (!O.empty()) cd.AddOpenSubject(toD(O));
+          PolyTreeD t1; PathsD o1; cd.Execute((ClipType)ct, (FillRule)fr, t1, o1); }
+        { Clipper64 cs; cs.PreserveCollinear(pc); cs.ReverseSolution(rev); cs.AddSubject(scaled(S)); cs.AddClip(scaled(C)); if (!O.empty()) cs.AddOpenSubject(scaled(O));
+          PolyTree64 t2; Paths64 o2; cs.Execute((ClipType)ct, (FillRule)fr, t2, o2); }
+      }
+    });
+    ctx.count("tree_executions_prescreened_in_child");
+    if (!died.empty()) {
+      ctx.evaluated(1);
+      ctx.count(std::string("scenes_") + cls);
+      ctx.violation("C04.tree_execute_crash", { died, died + "@" + cls, cls }, c,
+        "Clipper64/ClipperD::Execute into a PolyTree did not return: the forked child running it ended with " + died);
+      return;
+    }
+  }
 
   // ---- two objects, one per output form
   Paths64 sol, sol_open, tree_open;
@@ -442,12 +514,10 @@ static void judge(Ctx& ctx, const Case& c, bool from_replay) {
 
   // ---- (6) PolyTreeD on the same coordinates
   if (prec >= 0) {
-    const double scale = std::pow(2.0, std::ilogb(std::pow(10.0, prec)) + 1);   // as documented in the ClipperD ctor
+    const double scale = dscale;
     const int64_t iscale = (int64_t)scale;
-    if ((ld)M * (ld)scale > 4.5e15L) { ctx.count("treeD_skipped_not_exact_in_double"); }
+    if (!do_d) { ctx.count("treeD_skipped_not_exact_in_double"); }
     else {
-      auto toD = [](const Paths64& pp) { PathsD r; for (auto& p : pp) { PathD q; for (auto& pt : p) q.emplace_back((double)pt.x, (double)pt.y); r.push_back(q); } return r; };
-      auto scaled = [&](const Paths64& pp) { Paths64 r = pp; for (auto& p : r) for (auto& pt : p) { pt.x *= iscale; pt.y *= iscale; } return r; };
       PathsD Sd = toD(S), Cd = toD(C), Od = toD(O);
       PolyTreeD treeD; PathsD treeD_open, solD, solD_open;
       bool okd1, okd2, ok3;
